@@ -838,9 +838,7 @@ class ExcelCompiler:
                 if not bounded_addr_cell.address.is_range:
                     data = ((self._evaluate(bounded_addr), ), )
                 else:
-                    if bounded_addr_cell.value is None:
-                        self._evaluate_range(bounded_addr)
-                    data = bounded_addr_cell.value
+                    data = self._evaluate_range(bounded_addr)
 
             elif cell_range.formula is None:
                 data = tuple(
